@@ -1,7 +1,465 @@
-//! Further ops (storage manager, records, schedules) — filled in as the model grows.
+//! Storage-manager ops (`st.*`, C10/C15/C16) on a real `StorageManager<FaultDb>`.
+//! Records: `azks:<numnodes>:<epoch>`, `node:<id>:<version>:<payload>`, `vs:<user>:<epoch>:<version>:<payload>`
+//! (payload 0 of a value state is the tombstone).  Keys: `azks`, `node:<id>`, `vs:<user>:<epoch>`.
 use crate::exec::Exec;
 use crate::exec_l1::L1State;
+use crate::faultdb::FaultDb;
+use akd::append_only_zks::DEFAULT_AZKS_KEY;
+use akd::storage::manager::StorageManager;
+use akd::storage::types::{DbRecord, ValueState, ValueStateKey, ValueStateRetrievalFlag};
+use akd::storage::StorageUtil;
+use akd::tree_node::{NodeKey, TreeNode, TreeNodeType, TreeNodeWithPreviousValue};
+use akd::{AkdLabel, AkdValue, Azks, AzksValue, NodeLabel};
+use std::sync::atomic::Ordering;
+use std::time::Duration;
 
-pub fn step(_ex: &mut Exec, _st: &mut L1State, _op: &str, _toks: &[&str]) -> Option<String> {
-    None
+pub struct StState {
+    pub db: FaultDb,
+    pub mgr: StorageManager<FaultDb>,
+    pub cached: bool,
+}
+
+fn node_label(id: u64) -> NodeLabel {
+    let mut v = [0u8; 32];
+    v[..8].copy_from_slice(&id.to_be_bytes());
+    NodeLabel::new(v, 64)
+}
+
+fn payload_value(p: u64) -> Vec<u8> {
+    if p == 0 {
+        vec![]
+    } else {
+        p.to_be_bytes().to_vec()
+    }
+}
+
+fn value_payload(v: &[u8]) -> u64 {
+    if v.len() == 8 {
+        let mut a = [0u8; 8];
+        a.copy_from_slice(v);
+        u64::from_be_bytes(a)
+    } else {
+        0
+    }
+}
+
+pub fn parse_rec(s: &str) -> Option<DbRecord> {
+    let p: Vec<&str> = s.split(':').collect();
+    match p.as_slice() {
+        ["azks", n, e] => Some(DbRecord::Azks(Azks { latest_epoch: e.parse().ok()?, num_nodes: n.parse().ok()? })),
+        ["node", id, ver, pay] => {
+            let label = node_label(id.parse().ok()?);
+            let mut h = [0u8; 32];
+            h[..8].copy_from_slice(&pay.parse::<u64>().ok()?.to_be_bytes());
+            let node = TreeNode {
+                label,
+                last_epoch: ver.parse().ok()?,
+                min_descendant_epoch: 0,
+                parent: NodeLabel::root(),
+                node_type: TreeNodeType::Leaf,
+                left_child: None,
+                right_child: None,
+                hash: AzksValue(h),
+            };
+            Some(DbRecord::TreeNode(TreeNodeWithPreviousValue { label, latest_node: node, previous_node: None }))
+        }
+        ["vs", u, e, ver, pay] => Some(DbRecord::ValueState(ValueState {
+            username: AkdLabel(vec![u.parse::<u8>().ok()?]),
+            epoch: e.parse().ok()?,
+            version: ver.parse().ok()?,
+            label: NodeLabel::root(),
+            value: AkdValue(payload_value(pay.parse().ok()?)),
+        })),
+        _ => None,
+    }
+}
+
+pub fn show_rec(r: &DbRecord) -> String {
+    match r {
+        DbRecord::Azks(a) => format!("azks:{}:{}", a.num_nodes, a.latest_epoch),
+        DbRecord::TreeNode(t) => {
+            let mut id = [0u8; 8];
+            id.copy_from_slice(&t.label.label_val[..8]);
+            let mut pay = [0u8; 8];
+            pay.copy_from_slice(&t.latest_node.hash.0[..8]);
+            format!("node:{}:{}:{}", u64::from_be_bytes(id), t.latest_node.last_epoch, u64::from_be_bytes(pay))
+        }
+        DbRecord::ValueState(v) => format!(
+            "vs:{}:{}:{}:{}",
+            v.username.0.first().cloned().unwrap_or(0),
+            v.epoch,
+            v.version,
+            value_payload(&v.value.0)
+        ),
+    }
+}
+
+enum Key {
+    Azks,
+    Node(u64),
+    Vs(u8, u64),
+}
+
+fn parse_key(s: &str) -> Option<Key> {
+    let p: Vec<&str> = s.split(':').collect();
+    match p.as_slice() {
+        ["azks"] => Some(Key::Azks),
+        ["node", id] => Some(Key::Node(id.parse().ok()?)),
+        ["vs", u, e] => Some(Key::Vs(u.parse().ok()?, e.parse().ok()?)),
+        _ => None,
+    }
+}
+
+fn parse_flag(s: &str) -> Option<ValueStateRetrievalFlag> {
+    let p: Vec<&str> = s.split(':').collect();
+    match p.as_slice() {
+        ["max"] => Some(ValueStateRetrievalFlag::MaxEpoch),
+        ["min"] => Some(ValueStateRetrievalFlag::MinEpoch),
+        ["ver", v] => Some(ValueStateRetrievalFlag::SpecificVersion(v.parse().ok()?)),
+        ["ep", e] => Some(ValueStateRetrievalFlag::SpecificEpoch(e.parse().ok()?)),
+        ["leq", e] => Some(ValueStateRetrievalFlag::LeqEpoch(e.parse().ok()?)),
+        _ => None,
+    }
+}
+
+fn show_one(r: Result<DbRecord, akd::errors::StorageError>) -> String {
+    match r {
+        Ok(r) => show_rec(&r),
+        Err(akd::errors::StorageError::NotFound(_)) => "none".into(),
+        Err(_) => "err".into(),
+    }
+}
+
+fn show_many(mut v: Vec<String>) -> String {
+    v.sort();
+    v.dedup();
+    format!("[{}]", v.join(","))
+}
+
+impl StState {
+    async fn get(&self, k: &Key) -> Result<DbRecord, akd::errors::StorageError> {
+        match k {
+            Key::Azks => self.mgr.get::<Azks>(&DEFAULT_AZKS_KEY).await,
+            Key::Node(id) => self.mgr.get::<TreeNodeWithPreviousValue>(&NodeKey(node_label(*id))).await,
+            Key::Vs(u, e) => self.mgr.get::<ValueState>(&ValueStateKey(vec![*u], *e)).await,
+        }
+    }
+    async fn get_direct(&self, k: &Key) -> Result<DbRecord, akd::errors::StorageError> {
+        match k {
+            Key::Azks => self.mgr.get_direct::<Azks>(&DEFAULT_AZKS_KEY).await,
+            Key::Node(id) => self.mgr.get_direct::<TreeNodeWithPreviousValue>(&NodeKey(node_label(*id))).await,
+            Key::Vs(u, e) => self.mgr.get_direct::<ValueState>(&ValueStateKey(vec![*u], *e)).await,
+        }
+    }
+}
+
+/// what a read of `k` must return by the statement of C16/C15: the database's record "at that moment"
+/// — after a hypothetical commit of the pending log when a transaction is open
+fn truth_after_commit(db: &[DbRecord], log: &[DbRecord], key: &str) -> String {
+    let find = |rs: &[DbRecord]| rs.iter().map(show_rec).find(|s| rec_key(s) == key);
+    find(log).or_else(|| find(db)).unwrap_or_else(|| "none".into())
+}
+
+pub fn rec_key(s: &str) -> String {
+    let p: Vec<&str> = s.split(':').collect();
+    match p[0] {
+        "azks" => "azks".into(),
+        "node" => format!("node:{}", p[1]),
+        _ => format!("vs:{}:{}", p[1], p[2]),
+    }
+}
+
+/// the read-only queries, on any manager
+fn query(rt: &tokio::runtime::Runtime, s: &StState, toks: &[&str]) -> Option<String> {
+    Some(match toks[0] {
+        "st.get" => show_one(rt.block_on(s.get(&parse_key(toks[1])?))),
+        "st.batchget" => {
+            let keys: Option<Vec<Key>> = toks[2..].iter().map(|t| parse_key(t)).collect();
+            let keys = keys?;
+            let nodes: Vec<NodeKey> = keys.iter().filter_map(|k| if let Key::Node(id) = k { Some(NodeKey(node_label(*id))) } else { None }).collect();
+            let vss: Vec<ValueStateKey> = keys.iter().filter_map(|k| if let Key::Vs(u, e) = k { Some(ValueStateKey(vec![*u], *e)) } else { None }).collect();
+            let mut outv = vec![];
+            let mut err = false;
+            if !nodes.is_empty() {
+                match rt.block_on(s.mgr.batch_get::<TreeNodeWithPreviousValue>(&nodes)) {
+                    Ok(rs) => outv.extend(rs.iter().map(show_rec)),
+                    Err(_) => err = true,
+                }
+            }
+            if !vss.is_empty() && !err {
+                match rt.block_on(s.mgr.batch_get::<ValueState>(&vss)) {
+                    Ok(rs) => outv.extend(rs.iter().map(show_rec)),
+                    Err(_) => err = true,
+                }
+            }
+            if err { "err".to_string() } else { show_many(outv) }
+        }
+        "st.userstate" => {
+            let u: u8 = toks[1].parse().ok()?;
+            let f = parse_flag(toks[2])?;
+            match rt.block_on(s.mgr.get_user_state(&AkdLabel(vec![u]), f)) {
+                Ok(v) => show_rec(&DbRecord::ValueState(v)),
+                Err(akd::errors::StorageError::NotFound(_)) => "none".into(),
+                Err(_) => "err".into(),
+            }
+        }
+        "st.userdata" => {
+            let u: u8 = toks[1].parse().ok()?;
+            match rt.block_on(s.mgr.get_user_data(&AkdLabel(vec![u]))) {
+                Ok(kd) => show_many(kd.states.into_iter().map(|v| show_rec(&DbRecord::ValueState(v))).collect()),
+                Err(akd::errors::StorageError::NotFound(_)) => "[]".into(),
+                Err(_) => "err".into(),
+            }
+        }
+        "st.userversions" => {
+            let f = parse_flag(toks[1])?;
+            let us: Option<Vec<u8>> = toks[3..].iter().map(|t| t.parse().ok()).collect();
+            let labels: Vec<AkdLabel> = us?.iter().map(|u| AkdLabel(vec![*u])).collect();
+            match rt.block_on(s.mgr.get_user_state_versions(&labels, f)) {
+                Ok(m) => show_many(m.into_iter().map(|(k, (ver, val))| format!("{}:{}:{}", k.0.first().cloned().unwrap_or(0), ver, value_payload(&val.0))).collect()),
+                Err(_) => "err".into(),
+            }
+        }
+        _ => return None,
+    })
+}
+
+/// C15 / C16 oracle: the same read against an uncached manager over the database as it would be
+/// after committing the pending log (or as it is, outside a transaction)
+fn reference_answer(rt: &tokio::runtime::Runtime, s: &StState, log: &[DbRecord], toks: &[&str]) -> Option<String> {
+    let mut recs = rt.block_on(s.db.inner.batch_get_all_direct()).ok()?;
+    if s.mgr.is_transaction_active() {
+        for r in log {
+            recs.retain(|x| rec_key(&show_rec(x)) != rec_key(&show_rec(r)));
+            recs.push(r.clone());
+        }
+    }
+    let db = rt.block_on(FaultDb::from_records(&recs));
+    let clone = StState { db: db.clone(), mgr: StorageManager::new_no_cache(db), cached: false };
+    query(rt, &clone, toks)
+}
+
+pub fn step(ex: &mut Exec, st: &mut L1State, op: &str, toks: &[&str]) -> Option<String> {
+    if !op.starts_with("st.") {
+        return crate::exec_l3::step(ex, st, op, toks);
+    }
+    if op == "st.reset" {
+        let db = FaultDb::new();
+        let cached = toks.get(1) != Some(&"nocache");
+        let mgr = match toks.get(1).cloned() {
+            Some("nocache") => StorageManager::new_no_cache(db.clone()),
+            Some("tiny") => StorageManager::new(db.clone(), Some(Duration::from_millis(3)), Some(300), Some(Duration::from_millis(2))),
+            _ => StorageManager::new(db.clone(), Some(Duration::from_millis(3)), None, Some(Duration::from_millis(2))),
+        };
+        st.st = Some(StState { db, mgr, cached });
+        st.st_log.clear();
+        return Some("ok".into());
+    }
+    let rt = &st.rt;
+    let s = st.st.as_ref()?;
+    let fail = |t: &str| -> Option<bool> {
+        match t {
+            "0" => Some(false),
+            "1" => Some(true),
+            _ => None,
+        }
+    };
+    let arm = |f: bool| s.db.fail_next.store(f, Ordering::SeqCst);
+    if matches!(op, "st.get" | "st.batchget" | "st.userstate" | "st.userdata" | "st.userversions") {
+        let fidx = match op { "st.get" => 2, "st.batchget" => 1, "st.userstate" => 3, "st.userdata" => 2, _ => 2 };
+        let f = fail(toks.get(fidx)?)?;
+        arm(f);
+        let out = query(rt, s, toks)?;
+        s.db.fail_next.store(false, Ordering::SeqCst);
+        if out != "err" {
+            let active = s.mgr.is_transaction_active();
+            if let Some(reference) = reference_answer(rt, s, &st.st_log, toks) {
+                if reference != out {
+                    let (prop, tag) = if active { ("C15", "txn-read-differs-from-commit") } else { ("C16", "read-differs-from-database") };
+                    ex.fail_tag(prop, tag, format!("{:?} returned {} {} — the same read on the database{} gives {}", toks, out,
+                        if active { "inside the transaction" } else { "through the cache" },
+                        if active { " after committing the pending records" } else { "" }, reference));
+                }
+            }
+        }
+        ex.stats.bump(op, if out == "err" { "err" } else if out == "none" || out == "[]" { "empty" } else if s.mgr.is_transaction_active() { "ok-txn" } else { "ok" });
+        return Some(out);
+    }
+    let out = match op {
+        "st.set" if toks.len() == 3 => {
+            let r = parse_rec(toks[1])?;
+            arm(fail(toks[2])?);
+            let active = s.mgr.is_transaction_active();
+            let res = rt.block_on(s.mgr.set(r.clone()));
+            if active && res.is_ok() {
+                st.st_log.retain(|x| rec_key(&show_rec(x)) != rec_key(&show_rec(&r)));
+                st.st_log.push(r);
+            }
+            if res.is_ok() { "ok".to_string() } else { "err".to_string() }
+        }
+        "st.batchset" if toks.len() >= 2 => {
+            let rs: Option<Vec<DbRecord>> = toks[2..].iter().map(|t| parse_rec(t)).collect();
+            let rs = rs?;
+            arm(fail(toks[1])?);
+            let active = s.mgr.is_transaction_active();
+            let res = rt.block_on(s.mgr.batch_set(rs.clone()));
+            if active && res.is_ok() {
+                for r in rs {
+                    st.st_log.retain(|x| rec_key(&show_rec(x)) != rec_key(&show_rec(&r)));
+                    st.st_log.push(r);
+                }
+            }
+            if res.is_ok() { "ok".to_string() } else { "err".to_string() }
+        }
+        "st.get" if toks.len() == 3 => {
+            let k = parse_key(toks[1])?;
+            let f = fail(toks[2])?;
+            arm(f);
+            let r = show_one(rt.block_on(s.get(&k)));
+            // oracle (C16 / C15): a read returns what the database holds at that moment, or the pending value
+            if r != "err" {
+                s.db.fail_next.store(false, Ordering::SeqCst);
+                let db = rt.block_on(s.db.inner.batch_get_all_direct()).unwrap_or_default();
+                let log: Vec<DbRecord> = if s.mgr.is_transaction_active() { st.st_log.clone() } else { vec![] };
+                let truth = truth_after_commit(&db, &log, toks[1]);
+                if truth != r {
+                    ex.fail_tag("C16", "read-differs-from-database", format!("get {} returned {} while storage (with the pending transaction) holds {}", toks[1], r, truth));
+                }
+            }
+            r
+        }
+        "st.getdirect" if toks.len() == 3 => {
+            let k = parse_key(toks[1])?;
+            arm(fail(toks[2])?);
+            show_one(rt.block_on(s.get_direct(&k)))
+        }
+        "st.batchget" if toks.len() >= 2 => {
+            arm(fail(toks[1])?);
+            let keys: Option<Vec<Key>> = toks[2..].iter().map(|t| parse_key(t)).collect();
+            let keys = keys?;
+            // batch_get is typed: issue one call per record type, as the tree code does
+            let nodes: Vec<NodeKey> = keys.iter().filter_map(|k| if let Key::Node(id) = k { Some(NodeKey(node_label(*id))) } else { None }).collect();
+            let vss: Vec<ValueStateKey> = keys.iter().filter_map(|k| if let Key::Vs(u, e) = k { Some(ValueStateKey(vec![*u], *e)) } else { None }).collect();
+            let mut outv = vec![];
+            let mut err = false;
+            if !nodes.is_empty() {
+                match rt.block_on(s.mgr.batch_get::<TreeNodeWithPreviousValue>(&nodes)) {
+                    Ok(rs) => outv.extend(rs.iter().map(show_rec)),
+                    Err(_) => err = true,
+                }
+            }
+            if !vss.is_empty() && !err {
+                match rt.block_on(s.mgr.batch_get::<ValueState>(&vss)) {
+                    Ok(rs) => outv.extend(rs.iter().map(show_rec)),
+                    Err(_) => err = true,
+                }
+            }
+            if err { "err".to_string() } else { show_many(outv) }
+        }
+        "st.begin" => {
+            let b = s.mgr.begin_transaction();
+            b.to_string()
+        }
+        "st.commit" if toks.len() == 2 => {
+            arm(fail(toks[1])?);
+            let expected: Vec<String> = st.st_log.iter().map(show_rec).collect();
+            *s.db.last_commit.lock().unwrap() = None;
+            let r = rt.block_on(s.mgr.commit_transaction());
+            // oracle (C15): the database receives exactly the pending records, the epoch record last
+            if let Some(batch) = s.db.last_commit.lock().unwrap().clone() {
+                let mut got: Vec<String> = batch.iter().map(show_rec).collect();
+                let last_is_azks = got.last().map(|x| x.starts_with("azks")).unwrap_or(true);
+                let mut exp = expected.clone();
+                got.sort();
+                exp.sort();
+                if got != exp || !last_is_azks {
+                    ex.fail_tag("C15", "commit-batch", format!("commit handed {:?} to the database, pending were {:?}", got, exp));
+                }
+            }
+            st.st_log.clear();
+            match r {
+                Ok(n) => format!("n{n}"),
+                Err(_) => "err".into(),
+            }
+        }
+        "st.rollback" => {
+            let r = s.mgr.rollback_transaction();
+            st.st_log.clear();
+            if r.is_ok() { "ok".to_string() } else { "err".to_string() }
+        }
+        "st.flush" => {
+            rt.block_on(s.mgr.flush_cache());
+            "ok".into()
+        }
+        "st.sleep" => {
+            // every cached item (except the epoch slot) outlives its 3 ms lifetime
+            std::thread::sleep(Duration::from_millis(7));
+            "ok".into()
+        }
+        "st.userstate" if toks.len() == 4 => {
+            let u: u8 = toks[1].parse().ok()?;
+            let f = parse_flag(toks[2])?;
+            arm(fail(toks[3])?);
+            match rt.block_on(s.mgr.get_user_state(&AkdLabel(vec![u]), f)) {
+                Ok(v) => show_rec(&DbRecord::ValueState(v)),
+                Err(akd::errors::StorageError::NotFound(_)) => "none".into(),
+                Err(_) => "err".into(),
+            }
+        }
+        "st.userdata" if toks.len() == 3 => {
+            let u: u8 = toks[1].parse().ok()?;
+            arm(fail(toks[2])?);
+            match rt.block_on(s.mgr.get_user_data(&AkdLabel(vec![u]))) {
+                Ok(kd) => show_many(kd.states.into_iter().map(|v| show_rec(&DbRecord::ValueState(v))).collect()),
+                Err(akd::errors::StorageError::NotFound(_)) => "[]".into(),
+                Err(_) => "err".into(),
+            }
+        }
+        "st.userversions" if toks.len() >= 3 => {
+            let f = parse_flag(toks[1])?;
+            arm(fail(toks[2])?);
+            let us: Option<Vec<u8>> = toks[3..].iter().map(|t| t.parse().ok()).collect();
+            let us = us?;
+            let labels: Vec<AkdLabel> = us.iter().map(|u| AkdLabel(vec![*u])).collect();
+            match rt.block_on(s.mgr.get_user_state_versions(&labels, f)) {
+                Ok(m) => show_many(m.into_iter().map(|(k, (ver, val))| format!("{}:{}:{}", k.0.first().cloned().unwrap_or(0), ver, value_payload(&val.0))).collect()),
+                Err(_) => "err".into(),
+            }
+        }
+        "st.tombstone" if toks.len() == 4 => {
+            let u: u8 = toks[1].parse().ok()?;
+            let e: u64 = toks[2].parse().ok()?;
+            arm(fail(toks[3])?);
+            let active = s.mgr.is_transaction_active();
+            // what will be written (for the pending-log mirror)
+            let r = rt.block_on(s.mgr.tombstone_value_states(&AkdLabel(vec![u]), e));
+            if active {
+                // the manager put tombstones into the log; mirror by re-reading the user's data
+                s.db.fail_next.store(false, Ordering::SeqCst);
+                if let Ok(kd) = rt.block_on(s.mgr.get_user_data(&AkdLabel(vec![u]))) {
+                    for v in kd.states {
+                        if v.epoch <= e && v.value.0.is_empty() {
+                            let rec = DbRecord::ValueState(v);
+                            let db = rt.block_on(s.db.inner.batch_get_all_direct()).unwrap_or_default();
+                            if !db.iter().any(|x| show_rec(x) == show_rec(&rec)) {
+                                st.st_log.retain(|x| rec_key(&show_rec(x)) != rec_key(&show_rec(&rec)));
+                                st.st_log.push(rec);
+                            }
+                        }
+                    }
+                }
+            }
+            if r.is_ok() { "ok".to_string() } else { "err".to_string() }
+        }
+        "st.active" => s.mgr.is_transaction_active().to_string(),
+        "st.dbdump" => {
+            let db = rt.block_on(s.db.inner.batch_get_all_direct()).unwrap_or_default();
+            show_many(db.iter().map(show_rec).collect())
+        }
+        _ => return None,
+    };
+    s.db.fail_next.store(false, Ordering::SeqCst);
+    let _ = s.cached;
+    ex.stats.bump(op, if out == "err" { "err" } else if out == "none" { "none" } else { "ok" });
+    Some(out)
 }
